@@ -135,19 +135,21 @@ class Translator:
         raise AnalysisError(f"[ALG] line {getattr(node, 'lineno', '?')}: {msg}")
 
     # ---- entry points ------------------------------------------------------------------------------
-    def method(self, ctx: SelfCtx, name, args):
+    def method(self, ctx: SelfCtx, name, args, kwargs=None):
         fi = ctx.cls.find_method(name)
         if fi is None:
             raise AnalysisError(f"anchor missing: {ctx.cls.name}.{name}")
-        params = fi.params()[1:]
+        params = fi.params() if fi.is_staticmethod else fi.params()[1:]
         env = {"__module__": fi.module.name, "__fi__": fi}
         for p, v in zip(params, args):
             env[p] = v
+        for k_, v_ in (kwargs or {}).items():
+            env[k_] = v_
         # defaults
         a = fi.node.args
         defaults = dict(zip([x.arg for x in a.args][-len(a.defaults):] if a.defaults else [], a.defaults))
         for p in params[len(args):]:
-            if p in defaults:
+            if p in defaults and p not in env:
                 env[p] = self.expr(defaults[p], env, ctx)
         if self.depth == 0:
             self.last_env = env
@@ -453,7 +455,7 @@ class Translator:
             if kind == "method":
                 self.depth += 1
                 try:
-                    return self.method(ctx, fv[1], args)
+                    return self.method(ctx, fv[1], args, kwargs)
                 finally:
                     self.depth -= 1
             if kind == "dictmeth":
